@@ -141,7 +141,9 @@ def check_offline_memo_renewed(ix, rep, mon, rule='R-CACHE'):
         if not isinstance(k, ClassInfo):
             continue
         for mname, f in sorted(k.methods.items()):
-            if ix.resolve_method(mon.cls, mname) is not f and not mname.startswith('visit'):
+            # the walk of the specification: visit, visitX, visitSpec, visitAst (a memo of a configuration-derived value, such as converted bounds,
+            # is judged by check_method: its inputs are attributes, not the data set)
+            if not mname.startswith('visit') or ix.resolve_method(mon.cls, mname) is not f:
                 continue
             for cont, ifnode in _hit_anywhere(f.node):
                 n += 1
